@@ -201,11 +201,13 @@ CHECKS = {
     ),
     "C20": dict(
         category="exploration",
-        technique="exhaustive enumeration of all strings of length <=4 over an 18-character alphabet through every name-derivation function with a call site, plus Hypothesis Unicode text and keyword spellings; validity predicate oracle (non-empty, isidentifier, not keyword); namespace collision cases through generate_client + import",
+        technique="(a) exhaustive enumeration of all strings of length <=4 over an 18-character alphabet through every name-derivation function with a call site, plus Hypothesis Unicode text and keyword spellings; validity predicate oracle (non-empty, isidentifier, not keyword). (b) raw names that are distinct but collide after derivation, placed in one namespace (properties of a schema, parameters of an operation, component schemas, values of an enum, operations of a tag) of a real document: all pairs and triples of a 15-name collision cluster, all pairs of 25 keyword-like spellings, Hypothesis-built clusters (12 spelling styles x 12 suffixes incl. the suffixes de-collision itself hands out); through generate_client + import; oracle = semantic identity of every name (decode/encode round trip per property, parameter values observed on the wire, class per schema and reference targets, enum member values, reachability of every operation by a method of its own)",
         text="Totality/validity is decided exhaustively for short strings (111 151 strings x 5 derivation functions) and sampled for "
-             "long Unicode strings; collision-safety is decided by placing colliding/hostile raw names in each namespace of a real "
-             "spec and counting distinct identifiers in the imported package. Search with an exhaustive small scope, not a proof.",
-        note="Derivation functions without call sites are not checked; strings longer than 4 are sampled; part (b) namespaces limited to the listed kinds.",
+             "long Unicode strings; collision-safety is decided on ~3 600 generated packages per quick run by checking that every raw "
+             "name keeps an identity of its own in the imported package. 3 open findings (schemas with equal derived class name are "
+             "merged; letter-less schema names shadowed by a module; colliding parameter names give a duplicate argument) are "
+             "excluded by construction with counts. Search with an exhaustive small scope, not a proof.",
+        note="Derivation functions without call sites are not checked; strings longer than 4 are sampled; part (b) covers the five namespaces the property lists, with integer properties/parameters only; tag attributes are covered by C07.",
         design="§5 C20",
     ),
 }
